@@ -2036,6 +2036,24 @@ class Array(DaskMethodsMixin):
         )
 
         index2 = normalize_index(index, self.shape)
+
+        if any(i is None for i in index2) and any(
+            is_arraylike(i) for i in index2
+        ):
+            # np.newaxis next to an array index: the code paths for array
+            # indices (take, slice_with_int/bool_dask_array) do not expect None
+            # entries.  Select first, then insert the new axes where they
+            # belong: every entry that is not an integer keeps one axis.
+            selected = self[tuple(i for i in index2 if i is not None)]
+            return selected[
+                tuple(
+                    None if i is None else slice(None)
+                    for i in index2
+                    if not isinstance(i, Integral)
+                    and not (isinstance(i, Array) and i.ndim == 0)
+                )
+            ]
+
         dependencies = {self.name}
         for i in index2:
             if isinstance(i, Array):
